@@ -83,7 +83,7 @@ fn classify(es: &[SEntry]) -> (bool, Vec<&'static str>) {
 /// All oracle clauses for one list and one codec / writer kind.
 pub fn check_list(es: &[SEntry], c: u8, asyncw: bool, params: codec::Params, cross_all: bool) -> CaseResult {
     if let Err(e) = directory::valid(es) {
-        fail!("C05/harness", "generator produced an invalid list: {e}");
+        fail!("C05/INFRA/harness-self-check", "generator produced an invalid list: {e}");
     }
     let kind = if asyncw { "async" } else { "sync" };
     let cname = codec::name(c);
